@@ -102,6 +102,12 @@ def check(ctx, src, tgt, radius, desc):
     lay_data = _relayout(base_v[1], layout)
     variants.append((f"{base_v[0]}[{layout}]", lay_data, base_v[2], base_v[3]))
     ctx.count("layout." + layout + (".not_c_contiguous" if not np.ma.getdata(lay_data).flags["C_CONTIGUOUS"] else ".c_contiguous(degenerate shape)"))
+    # masked two-channel data in which few elements are masked and only in channel 0, with a different weight function per channel:
+    # most results stay unmasked, so the *values* of both channels are compared (in "masked2ch" nearly everything is masked)
+    ms = np.array([r.random() < 0.1 for _ in range(n_src)])
+    m2s = np.stack([ms, np.zeros_like(ms)], axis=-1)
+    variants.append(("masked2ch_sparse", np.ma.array(v3[:, [0, 2]].reshape(tuple(src.shape) + (2,)), mask=m2s.reshape(tuple(src.shape) + (2,))),
+                     [r.choice(["step", "soft"]), "lin"], m2s))
     with warnings.catch_warnings():
         warnings.simplefilter("ignore")
         vii, voi, ia, da = kd_tree.get_neighbour_info(src, tgt, radius, neighbours=k, epsilon=0, reduce_data=False, segments=1)
